@@ -897,3 +897,147 @@ Theorem type_tests_spec : forall v,
   fx_call nm_is_array [v] = ybool (match v with YA _ => true | _ => false end) /\
   fx_call nm_array_length [v] = (match v with YA l => yint (Z.of_nat (length l)) | YS _ => YErr end).
 Proof. intros v. destruct v as [[| | |]|l]; repeat split; reflexivity. Qed.
+
+(* ------------------------------------------------------------------ conversions: number <-> decimal text *)
+Local Close Scope Q_scope.
+Local Open Scope nat_scope.
+
+Lemma digit_char_dec : forall d, (d < 10)%N ->
+  is_digit (digit_char d) = true /\ Z.of_N (digit_char d - 48) = Z.of_N d.
+Proof.
+  intros d H. unfold digit_char, is_digit.
+  assert (E : (d <? 10)%N = true) by (apply N.ltb_lt; exact H). rewrite E. split.
+  - apply andb_true_iff. split; apply N.leb_le; lia.
+  - f_equal. lia.
+Qed.
+
+Lemma dec_digits_step : forall c r acc cnt, is_digit c = true ->
+  dec_digits (c :: r) acc cnt = dec_digits r (acc * 10 + Z.of_N (c - 48))%Z (S cnt).
+Proof. intros c r acc cnt H. simpl. rewrite H. reflexivity. Qed.
+
+Lemma dec_digits_rev : forall fuel n acc cnt rest, (n < 10 ^ N.of_nat fuel)%N ->
+  dec_digits (rev (digits_rev 10 fuel n) ++ rest) acc cnt =
+  dec_digits rest (acc * 10 ^ Z.of_nat (length (digits_rev 10 fuel n)) + Z.of_N n)%Z
+             (cnt + length (digits_rev 10 fuel n)).
+Proof.
+  induction fuel as [|f IH]; intros n acc cnt rest Hn.
+  - simpl in Hn. assert (n = 0%N) by lia. subst n. simpl.
+    rewrite Z.mul_1_r, Z.add_0_r, Nat.add_0_r. reflexivity.
+  - simpl digits_rev. destruct (n <? 10)%N eqn:E.
+    + apply N.ltb_lt in E. destruct (digit_char_dec n E) as [D1 D2].
+      simpl rev. simpl app. rewrite dec_digits_step by exact D1. rewrite D2. simpl length.
+      rewrite Nat.add_1_r. reflexivity.
+    + apply N.ltb_ge in E.
+      assert (Hm : (n mod 10 < 10)%N) by (apply N.mod_lt; discriminate).
+      destruct (digit_char_dec _ Hm) as [D1 D2].
+      assert (Hd : (n / 10 < 10 ^ N.of_nat f)%N).
+      { apply N.div_lt_upper_bound; [discriminate|].
+        replace (N.of_nat (S f)) with (N.succ (N.of_nat f)) in Hn by lia.
+        rewrite N.pow_succ_r' in Hn. exact Hn. }
+      simpl rev. rewrite <- app_assoc. simpl app. rewrite (IH _ _ _ _ Hd).
+      rewrite dec_digits_step by exact D1. rewrite D2. simpl length.
+      set (L := length (digits_rev 10 f (n / 10))).
+      replace (cnt + S L) with (S (cnt + L)) by lia. f_equal.
+      rewrite Nat2Z.inj_succ, Z.pow_succ_r by lia.
+      assert (Hdm : Z.of_N n = (10 * Z.of_N (n / 10) + Z.of_N (n mod 10))%Z).
+      { rewrite (N.div_mod' n 10) at 1. rewrite N2Z.inj_add, N2Z.inj_mul. reflexivity. }
+      rewrite Hdm. ring.
+Qed.
+
+Lemma digits_rev_all_digits : forall fuel n c, In c (digits_rev 10 fuel n) -> is_digit c = true.
+Proof.
+  induction fuel as [|f IH]; intros n c H; simpl in H; [contradiction|].
+  destruct (n <? 10)%N eqn:E.
+  - apply N.ltb_lt in E. destruct H as [H|[]]. subst c. apply digit_char_dec. exact E.
+  - destruct H as [H|H].
+    + subst c. apply digit_char_dec. apply N.mod_lt. discriminate.
+    + apply (IH _ _ H).
+Qed.
+
+Lemma dec_of_N_fuel : forall n, (n < 10 ^ N.of_nat (S (N.to_nat (N.log2 n))))%N.
+Proof.
+  intros n. replace (N.of_nat (S (N.to_nat (N.log2 n)))) with (N.succ (N.log2 n)) by lia.
+  destruct n as [|p].
+  - simpl. lia.
+  - assert (H : (N.pos p < 2 ^ N.succ (N.log2 (N.pos p)))%N) by (apply N.log2_spec; lia).
+    eapply N.lt_le_trans; [exact H|]. apply N.pow_le_mono_l. lia.
+Qed.
+
+Theorem dec_of_N_roundtrip : forall n,
+  dec_digits (dec_of_N n) 0%Z 0 = Some (Z.of_N n, length (dec_of_N n), []) /\
+  0 < length (dec_of_N n) /\ (forall c, In c (dec_of_N n) -> is_digit c = true).
+Proof.
+  intros n. unfold dec_of_N, digits_of_N. split; [|split].
+  - pose proof (dec_digits_rev (S (N.to_nat (N.log2 n))) n 0%Z 0 [] (dec_of_N_fuel n)) as H.
+    rewrite app_nil_r in H. rewrite H. simpl dec_digits. rewrite rev_length. reflexivity.
+  - rewrite rev_length. simpl. destruct (n <? 10)%N; simpl; lia.
+  - intros c H. apply in_rev in H. apply (digits_rev_all_digits _ _ _ H).
+Qed.
+
+Theorem atoi_dec_of_Z : forall z, atoi (dec_of_Z z) = Some z.
+Proof.
+  assert (P : forall n, atoi (dec_of_N n) = Some (Z.of_N n)).
+  { intros n. destruct (dec_of_N_roundtrip n) as [H1 [H2 H3]].
+    destruct (dec_of_N n) as [|c r] eqn:E; [simpl in H2; lia|].
+    assert (Hc : is_digit c = true) by (apply H3; left; reflexivity).
+    unfold is_digit in Hc. apply andb_true_iff in Hc. destruct Hc as [Hc1 Hc2].
+    apply N.leb_le in Hc1. apply N.leb_le in Hc2.
+    unfold atoi.
+    assert (E1 : (c =? 45)%N = false) by (apply N.eqb_neq; lia).
+    assert (E2 : (c =? 43)%N = false) by (apply N.eqb_neq; lia).
+    rewrite E1, E2, H1. simpl length. reflexivity. }
+  intros z. destruct z as [|p|p].
+  - apply (P 0%N).
+  - apply (P (N.pos p)).
+  - unfold dec_of_Z, atoi. rewrite N.eqb_refl.
+    destruct (dec_of_N_roundtrip (N.pos p)) as [H1 [H2 _]]. rewrite H1.
+    destruct (length (dec_of_N (N.pos p))) as [|k] eqn:E; [lia|]. reflexivity.
+Qed.
+
+Lemma Qred_inject_Z : forall z, Qred (inject_Z z) = inject_Z z.
+Proof.
+  intros z. unfold Qred, inject_Z.
+  pose proof (Z.ggcd_gcd z 1) as G. pose proof (Z.ggcd_correct_divisors z 1) as D.
+  destruct (Z.ggcd z 1) as [g [a b]]. simpl in *. rewrite Z.gcd_1_r in G. subst g.
+  destruct D as [D1 D2]. rewrite Z.mul_1_l in D1, D2. subst. reflexivity.
+Qed.
+
+Lemma num_to_string_Z : forall z, (Z.abs z < 10 ^ 15)%Z -> num_to_string (inject_Z z) = Some (dec_of_Z z).
+Proof.
+  intros z H. unfold num_to_string. rewrite Qred_inject_Z. simpl Qden. simpl Qnum.
+  assert (F : find_scale 15 0 1 = Some 0) by reflexivity. rewrite F.
+  assert (P0 : p10 0 = 1%Z) by reflexivity. rewrite P0.
+  rewrite Z.mul_1_r, !Z.div_1_r.
+  assert (E : (p10 15 <=? Z.abs z)%Z = false) by (apply Z.leb_gt; exact H). rewrite E.
+  rewrite app_nil_r. destruct z as [|p|p]; reflexivity.
+Qed.
+
+(* cast(z, 'string') is the decimal text of z, and cast(that text, 'int') is z again *)
+Theorem cast_int_text_roundtrip : forall z, (Z.abs z < 10 ^ 15)%Z ->
+  fx_call nm_cast [YS (VNum (inject_Z z)); YS (VStr ty_string)] = ystr (dec_of_Z z) /\
+  fx_call nm_cast [YS (VStr (dec_of_Z z)); YS (VStr ty_int)] = yint z /\
+  fx_call nm_length [YS (VNum (inject_Z z))] = yint (Z.of_nat (length (dec_of_Z z))).
+Proof.
+  intros z H. split; [|split].
+  - unfold fx_call. assert (Ha : fx_arity nm_cast = Some (2, Some 2)) by reflexivity. rewrite Ha.
+    assert (Hf : fn_call nm_cast [VNum (inject_Z z); VStr ty_string] = FUnmodelled) by reflexivity.
+    simpl scalars. cbv beta iota. rewrite Hf. simpl negb. cbv beta iota.
+    assert (Hb : fx_body nm_cast [YS (VNum (inject_Z z)); YS (VStr ty_string)] =
+                 with_str (YS (VNum (inject_Z z))) ystr) by reflexivity.
+    rewrite Hb. unfold with_str, to_string_x. rewrite (num_to_string_Z z H). reflexivity.
+  - unfold fx_call. assert (Ha : fx_arity nm_cast = Some (2, Some 2)) by reflexivity. rewrite Ha.
+    assert (Hf : fn_call nm_cast [VStr (dec_of_Z z); VStr ty_int] = FUnmodelled) by reflexivity.
+    simpl scalars. cbv beta iota. rewrite Hf. simpl negb. cbv beta iota.
+    assert (Hb : fx_body nm_cast [YS (VStr (dec_of_Z z)); YS (VStr ty_int)] =
+                 with_int (YS (VStr (dec_of_Z z))) yint) by reflexivity.
+    rewrite Hb. unfold with_int, to_int64. rewrite atoi_dec_of_Z. unfold in_int64.
+    assert (E : (Z.abs z <? two63)%Z = true).
+    { apply Z.ltb_lt. eapply Z.lt_trans; [exact H|]. unfold two63. reflexivity. }
+    rewrite E. reflexivity.
+  - unfold fx_call. assert (Ha : fx_arity nm_length = Some (1, Some 1)) by reflexivity. rewrite Ha.
+    assert (Hf : fn_call nm_length [VNum (inject_Z z)] = FUnmodelled) by reflexivity.
+    simpl scalars. cbv beta iota. rewrite Hf. simpl negb. cbv beta iota.
+    assert (Hb : fx_body nm_length [YS (VNum (inject_Z z))] =
+                 with_str (YS (VNum (inject_Z z))) (fun s => yint (Z.of_nat (length s)))) by reflexivity.
+    rewrite Hb. unfold with_str, to_string_x. rewrite (num_to_string_Z z H). reflexivity.
+Qed.
